@@ -6,7 +6,7 @@ import reccommon as R
 from engine import Op, set_mode
 
 PROP = "C13"
-LEAN_MODULES = ["IsoDT.Props.C13", "IsoDT.Props.C13b"]
+LEAN_MODULES = ["IsoDT.Props.C13", "IsoDT.Props.C13b", "IsoDT.Props.C13c", "IsoDT.Props.C13mm"]
 RULE = ("recurrences as in C12 x probe points before, on, between and after members, members re-expressed in "
         "another zone/representation, the last member, one second either side; non-trivial when the probe is "
         "within the span of the series; distinct by (op, arguments)")
@@ -280,4 +280,6 @@ class FirstAfter(RecProbe):
 
 
 def ops():
-    return [IsValid(), GetItem(), Next(), Prev(), FirstAfter()]
+    import recmm
+    return [IsValid(), GetItem(), Next(), Prev(), FirstAfter(),
+            recmm.RecMMOp(PROP, "mmquery", ["mmritem", "mmrvalid", "mmrvalid", "mmrnext", "mmrprev", "mmrfirst", "mmrfirst"], 700)]
